@@ -9,6 +9,7 @@ import (
 	"fmt"
 	"io"
 	"math/rand"
+	"net"
 	"net/http"
 	"os"
 	"strconv"
@@ -226,6 +227,7 @@ func h1Request(cl *stack.Client, p *Plan, rng *rand.Rand) error {
 		return err
 	}
 	off := 0
+	readErr := ""
 	buf := make([]byte, 1+rng.Intn(50000))
 	for {
 		n, err := resp.Body.Read(buf)
@@ -234,11 +236,17 @@ func h1Request(cl *stack.Client, p *Plan, rng *rand.Rand) error {
 			off += n
 		}
 		if err != nil {
+			if ne, ok := err.(net.Error); ok && ne.Timeout() {
+				return fmt.Errorf("request %d: the client's own 60 s deadline expired after %d of %d octets of the response (no verdict)", p.ID, off, p.DownLen)
+			}
+			if err != io.EOF {
+				readErr = err.Error()
+			}
 			break
 		}
 	}
 	hok, tok := downOK(p, resp.Header, resp.Trailer)
-	ev(map[string]any{"op": "down_end", "r": p.ID, "total": off, "status_ok": resp.StatusCode == p.Status, "headers_ok": hok, "trailers_ok": tok, "status": resp.StatusCode})
+	ev(map[string]any{"op": "down_end", "r": p.ID, "total": off, "status_ok": resp.StatusCode == p.Status, "headers_ok": hok, "trailers_ok": tok, "status": resp.StatusCode, "read_err": readErr})
 	return <-errc
 }
 
